@@ -487,7 +487,7 @@ func init() {
 	core.Register(&core.Check{
 		ID: "C19", Level: "model_checking", Run: c19Run, Replay: c19Replay,
 		Added:       "valued accrual pipeline, print of unsorted days, valuation + --remap, deep diamond, double cycle three levels down, diamond (census once), accruals in two files; vsync.RWMutex with writer preference (litmus L10); race-only scenarios (700-row reports, 700-transaction infer, 5000-booking file)",
-		QuickBudget: 100 * time.Second, ThoroughBudget: 14 * time.Minute,
+		QuickBudget: 180 * time.Second, ThoroughBudget: 14 * time.Minute,
 		Rule: "scenarios: loader on include trees of 3 files (flat, chain, sub-directory; parse error / model error / missing file planted in each file; two errors), every command's processor pipeline on a 3-day journal (check, print, transcode, balance x3, portfolio returns/weights; a stage failing on day 1/2/3; two stages failing), registry programs of 2-3 goroutines on colliding names; " +
 			"for each scenario ALL schedules within the deviation bounds are executed on the real code under the cooperative scheduler (states = choice-tree nodes, transitions = edges), with happens-before state caching; non-trivial = scenarios with more than one schedule",
 		Assumptions: []string{"sequential consistency at synchronisation-point granularity; data races are the subject of the separate race tier (see DESIGN 3.9)",
